@@ -28,6 +28,7 @@ import (
 	datastore "github.com/ipfs/go-datastore"
 	dssync "github.com/ipfs/go-datastore/sync"
 	"github.com/libp2p/go-libp2p/core/crypto"
+	"github.com/libp2p/go-libp2p/core/event"
 	"github.com/libp2p/go-libp2p/core/peer"
 )
 
@@ -122,6 +123,13 @@ type World struct {
 	sentMark  int
 	barrierSeq int
 	tampered   map[string]ipfslog.Entry
+	dbs        []*dbCtx
+	curDB      int
+	evc        map[int]*evCounter
+	evSubs     []event.Subscription
+	obsSuffix  string
+	heldHooks   map[string]chan struct{}
+	hookWaiting map[string]int
 	lastForged string
 	gate    *gateCtl
 	cancels map[string]context.CancelFunc
@@ -225,11 +233,57 @@ func (w *World) hook(name string, args ...interface{}) {
 		w.acctOf(args[0]).done[logsID(logs)] = true
 	}
 	f := w.hookFn
+	var wait chan struct{}
+	if ch, ok := w.heldHooks[name]; ok {
+		wait = ch
+		w.hookWaiting[name]++
+	}
 	w.cond.Broadcast()
 	w.mu.Unlock()
+	if wait != nil {
+		<-wait
+	}
 	if f != nil {
 		f(name, args...)
 	}
+}
+
+// holdHook makes every goroutine that reaches the named hook point wait until releaseHook.
+func (w *World) holdHook(name string) {
+	w.mu.Lock()
+	if w.heldHooks == nil {
+		w.heldHooks = map[string]chan struct{}{}
+		w.hookWaiting = map[string]int{}
+	}
+	if _, ok := w.heldHooks[name]; !ok {
+		w.heldHooks[name] = make(chan struct{})
+		w.hookWaiting[name] = 0
+	}
+	w.mu.Unlock()
+}
+
+func (w *World) releaseHook(name string) {
+	w.mu.Lock()
+	if ch, ok := w.heldHooks[name]; ok {
+		close(ch)
+		delete(w.heldHooks, name)
+	}
+	w.mu.Unlock()
+}
+
+// waitHook waits until n goroutines are blocked at the named hook point.
+func (w *World) waitHook(name string, n int) bool {
+	deadline := time.Now().Add(150 * time.Millisecond)
+	for time.Now().Before(deadline) {
+		w.mu.Lock()
+		got := w.hookWaiting[name]
+		w.mu.Unlock()
+		if got >= n {
+			return true
+		}
+		time.Sleep(100 * time.Microsecond)
+	}
+	return false
 }
 
 func ptrOf(x interface{}) uintptr {
@@ -414,6 +468,8 @@ func (w *World) declare(n int, e ipfslog.Entry) {
 	logID := "other"
 	if e.GetLogID() == w.dbAddr {
 		logID = "db"
+	} else if k := w.dbIndexOfAddr(e.GetLogID()); k >= 0 {
+		logID = fmt.Sprintf("db%d", k)
 	}
 	ident, key := -1, -1
 	if e.GetIdentity() != nil {
@@ -535,9 +591,9 @@ func (w *World) observe(p int) {
 			idx = w.opsNames(ops)
 		}
 	}
-	w.printf("obs %d values=%s heads=%s len=%d idx=%s status=%d/%d local=%s remote=%s\n", p,
+	w.printf("obs %d values=%s heads=%s len=%d idx=%s status=%d/%d local=%s remote=%s%s\n", p,
 		w.names2(vals), w.names2(heads), lg.Len(), idx, st.GetProgress(), st.GetMax(),
-		w.cacheHeads(s, "_localHeads"), w.cacheHeads(s, "_remoteHeads"))
+		w.cacheHeads(s, "_localHeads"), w.cacheHeads(s, "_remoteHeads"), w.obsSuffix)
 }
 
 func (w *World) opsNames(ops []operation.Operation) string {
@@ -579,6 +635,13 @@ func (w *World) resetScenario(id string) {
 	w.hookFn = nil
 	w.mu.Unlock()
 	w.gate = nil
+	w.mu.Lock()
+	for n, ch := range w.heldHooks {
+		close(ch)
+		delete(w.heldHooks, n)
+	}
+	w.hookWaiting = map[string]int{}
+	w.mu.Unlock()
 	w.tampered = nil
 	w.lastForged = ""
 	for _, c := range w.cancels {
@@ -592,10 +655,24 @@ func (w *World) resetScenario(id string) {
 }
 
 func (w *World) closeStores() {
+	w.saveCurrentDB()
+	for _, d := range w.dbs {
+		for p, s := range d.stores {
+			_ = s.Close()
+			w.net.closeTopic(p, s.Address().String())
+		}
+	}
 	for p, s := range w.stores {
 		_ = s.Close()
 		w.net.closeTopic(p, s.Address().String())
 	}
+	for _, sub := range w.evSubs {
+		_ = sub.Close()
+	}
+	w.evSubs = nil
+	w.evc = nil
+	w.dbs = nil
+	w.curDB = 0
 	w.stores = map[int]iface.Store{}
 }
 
